@@ -1,11 +1,18 @@
 PROP = "C08"
-LEVEL = "exploration"
-CONTRACT_MODULES = ["rdp", "postprocessing"]
-DEDUCTIVE = []
-EXPLANATION = ("bounded run-time layer; the component contracts that are proved (C01/C04 threshold RDP, C07 mapping, C13 worst-knee filter and the "
-               "subsequence clause of the corner filters) cover several links of the composition argument of DESIGN section 5/C08, but the "
-               "parametric composition lemma itself is not discharged")
-LEVEL_TEXT = ("Bounded exploration of the whole pipeline over curve families and the bundled traces x simplifier x detector x linkage x ranking mode: "
-              "completion, subsequence property of each filter stage, non-increasing heights, mapped knees are retained points with matching coordinates. Not a proof.")
-LEVEL_NOTE = "bounded; configurations sampled in the quick tier"
-TECHNIQUE = "bounded run-time contract checking of the composed pipeline (stand-in)"
+LEVEL = "other"
+CONTRACT_MODULES = ["pipeline", "rdp"]
+DEDUCTIVE = [("pipeline", "lemma:pipeline_composition")]
+EXPLANATION = ("The end-to-end claim is a lemma over the component contracts, parametric in the simplifier, the detector and the filters, so the "
+               "quantification over configurations is discharged once, not by enumeration: from Post_S (C01+C07: reduced strictly increasing "
+               "from 0 to n-1), Post_D (C02: knees strictly increasing within [0, m-2]), Post_W / Post_C (C13: order-preserving subsequences, "
+               "heights non-increasing after the worst-knee filter), Post_F (cluster filter returns an order-preserving subsequence) and Post_M "
+               "(C07: out[j] = reduced[I[j]]) it follows that the mapped knees are strictly increasing original indices, each a retained "
+               "simplification point with the coordinates of its reduced-space knee, with non-increasing heights; along the way the "
+               "precondition of mapping (ascending positions within range) is established. The lemma is discharged by z3. Post_S, Post_D "
+               "(except Kneedle), Post_W, Post_C, Post_M are proved under their own properties; Post_F (C12) and Kneedle's Detector "
+               "conformance are bounded only, and 'the composed pipeline completes' is checked by the bounded layer on curve families and "
+               "the bundled traces x 5 simplifiers x 5 detectors x 4 linkages x 4 ranking modes.")
+LEVEL_TEXT = ("Composition lemma over the component contracts proved; weakest links: the cluster-filter stage and Kneedle are bounded only, so the "
+              "end-to-end claim is proof modulo those two hypotheses plus a bounded run of the real composed pipeline.")
+LEVEL_NOTE = "hypotheses of the lemma: C01, C02, C07, C13 postconditions (proved there) and the subsequence clause of filter_clusters (C12, bounded)"
+TECHNIQUE = "lemma over contracts (z3) + bounded run-time checking of the composed pipeline"
